@@ -304,7 +304,13 @@ func (p *sortProcessor) lessDirectRead(a, b *iqr.Record) bool {
 }
 
 func (p *sortProcessor) Rewind() {
-	// Nothing to do.
+	// Start over. The result handed out before the rewind is the same IQR
+	// the later commands worked on (they discard rows from it, rename its
+	// columns), so it can neither be served again nor be merged with the
+	// input of the second pass.
+	p.resultsSoFar = nil
+	p.hasFinalResult = false
+	p.finalNumRecs = 0
 }
 
 func (p *sortProcessor) Cleanup() {
